@@ -109,7 +109,7 @@ def runCfg (inp : Input) (cfg : String) : Option String :=
     | [some size, some par, some cpu] =>
       let stream := streamFor inp cpu
       let size := effBatchSize size inp.defaultBatchSize
-      if stream.length > batchModelLimit ∧ ¬ (par = 0 ∧ size ≤ stream.length) then none
+      if stream.length > batchModelLimit then none
       else
         let bs := batches size stream
         -- goroutines race for the mutex: model picks reverse dispatch order when par > 1
